@@ -19,6 +19,7 @@ from analysis.mir import Body, callee_name, callee_id, op_local, op_place
 AUDIT = json.load(open(os.path.join(os.path.dirname(__file__), "audit", "conv.json")))["entries"]
 STEP = re.compile(r"::(import|export|convert)_\w+$")
 STORE = re.compile(r"Vec::<.*>::push$|Extend<.*>>?::extend$|(HashMap|BTreeMap|SlotMap|HashSet|BTreeSet)::<.*>::insert$|::extend_from_slice$|Entry::<.*>::or_insert\w*$|Entry<.*>::or_insert\w*$|VacantEntry::<.*>::insert$|VacantEntry<.*>::insert$")
+MEMBER = re.compile(r"(HashMap|BTreeMap|HashSet|BTreeSet|SlotMap)::<.*>::(contains_key|contains|get|get_mut|entry|insert|remove)$|Entry::<|Entry<")
 NEXT = re.compile(r"Iterator>?::next$|Iterator for .*>::next$")
 ADAPTER = re.compile(r"Iterator>?::(map|for_each|try_for_each|filter_map|flat_map|fold|try_fold|collect|inspect)$|FromIterator<.*>>?::from_iter$|Extend<.*>>?::extend$")
 
@@ -40,6 +41,19 @@ def _describe(c):
     return "other:%s" % re.sub(r"_\d+", "local", str(c[1]))
 
 
+def _subject(c):
+    """what a classified test looks at, without how the test is spelled (`if let Some(x) = a.b`, `a.b.is_some()` and
+    `match a.b { None => .. }` all give `arg2.b`): audit keys use this, messages use _describe"""
+    if c[0] in ("discr", "callres", "value"):
+        return "on:" + _norm(c[-1])
+    if c[0] == "call":
+        ps = sorted({_norm(a) for a in c[3]}) or ["-"]
+        return "on:" + ",".join(ps)
+    if c[0] == "cmp":
+        return "on:" + ",".join(sorted({_norm(a) for a in c[2]}))
+    return "on:" + re.sub(r"_\d+", "local", str(c[1]))
+
+
 def _fns(F, mods, skip=()):
     for f in F.fns.values():
         if f.id.startswith(mods) and f.body and not f.derived and not any(s in f.id for s in skip):
@@ -54,6 +68,12 @@ def _closure_steps(F, f, b, depth=0):
         if any(STEP.search(callee_name(t) or "") for bi, t in cb.calls()) or (depth < 2 and _closure_steps(F, cf, cb, depth + 1)):
             out.append((abb, an, cf))
     return out
+
+
+def _self_state(c):
+    """is the receiver of the classified call a field of the converter itself (parameter 1)?"""
+    ap = c[2] if c[0] == "call" else c[-1]
+    return bool(ap) and ap[0] == ("arg", 1)
 
 
 def rule_step_purity(ctx, rid, mods, floor=None):
@@ -82,9 +102,12 @@ def rule_step_purity(ctx, rid, mods, floor=None):
                     continue
                 if c[0] == "call" and c[2] and re.search(r"::(is_some|is_none|is_empty|is_ok|is_err|len)$", c[1]) and any(ctrl.prefix_compatible(c[2], q) for q in sl):
                     continue
-                bad.append(_describe(c))
-            for d in sorted(set(bad)):
-                key = "%s/%s/%s" % (f.short, what, d)
+                if c[0] in ("call", "callres") and MEMBER.search(c[1] or "") and _self_state(c):
+                    # import-once / group-by: a membership test on a map or set the converter itself keeps
+                    continue
+                bad.append((_subject(c), _describe(c)))
+            for subj, d in sorted(set(bad)):
+                key = "%s/%s/%s" % (f.short, what, subj)
                 if key in AUDIT.get(rid_class(rid), {}):
                     ctx.ok(rid, key, "audited: " + AUDIT[rid_class(rid)][key])
                 else:
@@ -151,9 +174,9 @@ def rule_loop_totality(ctx, rid, mods, floor=None):
                     continue
                 if c[0] == "callres" and STEP.search(c[1] or ""):
                     continue
-                bad.append((sw, _describe(c)))
-            for sw, d in bad:
-                key = "%s/%s" % (f.short, d)
+                bad.append((sw, _describe(c), _subject(c)))
+            for sw, d, subj in bad:
+                key = "%s/%s" % (f.short, subj)
                 if key in AUDIT.get("totality", {}):
                     ctx.ok(rid, key, "audited: " + AUDIT["totality"][key])
                 else:
@@ -307,7 +330,6 @@ def run(ctx, prefix, mods, floors=None):
     rule_no_shrink(ctx, prefix + "k", mods)
 
 
-MEMBER = re.compile(r"(HashMap|BTreeMap|HashSet|BTreeSet|SlotMap)::<.*>::(contains_key|contains|get|get_mut|entry|insert|remove)$|Entry::<|Entry<")
 SHRINK = re.compile(r"Vec::<.*>::(pop|truncate|remove|swap_remove|drain|retain|dedup\w*|clear|split_off)$")
 
 
@@ -335,9 +357,9 @@ def rule_store_purity(ctx, rid, mods, floor=None):
                     continue
                 if c[0] == "call" and re.search(r"::(is_some|is_none|is_empty|is_ok|is_err)$", c[1] or ""):
                     continue
-                bad.append(_describe(c))
-            for d in sorted(set(bad)):
-                key = "%s/%s/%s" % (f.short, nm.split("::")[-1], d)
+                bad.append((_subject(c), _describe(c)))
+            for subj, d in sorted(set(bad)):
+                key = "%s/%s/%s" % (f.short, nm.split("::")[-1], subj)
                 if key in AUDIT.get("stores", {}):
                     ctx.ok(rid, key, "audited: " + AUDIT["stores"][key])
                 else:
